@@ -26,6 +26,9 @@ const (
 	respNone responderKind = iota
 	respError
 	respSuccess
+	// answers an error on some of its paths and tells its caller through a bool or error result
+	// (`v, ok := decodeBody(w, r)`): analysed inline, so that the answer is seen on the failing path only
+	respConditional
 )
 
 func ruleAnswerEndsHandler(c *Ctx, rule string, only func(fn *ssa.Function) bool, floor int) {
@@ -87,7 +90,11 @@ func ruleAnswerEndsHandler(c *Ctx, rule string, only func(fn *ssa.Function) bool
 	}
 	isHandlerSig := func(fn *ssa.Function) bool {
 		ps := fn.Signature.Params()
-		return fn.Signature.Recv() == nil && ps.Len() == 2 && isRW(ps.At(0).Type()) && fn.Signature.Results().Len() == 0
+		if fn.Signature.Recv() != nil || ps.Len() != 2 || !isRW(ps.At(0).Type()) || fn.Signature.Results().Len() != 0 {
+			return false
+		}
+		pt, ok := ps.At(1).Type().(*types.Pointer)
+		return ok && isNamed(pt.Elem(), "net/http", "Request")
 	}
 	kindOf := func(fn *ssa.Function, depth int) responderKind {
 		if k, ok := memo[fn]; ok {
@@ -102,6 +109,9 @@ func ruleAnswerEndsHandler(c *Ctx, rule string, only func(fn *ssa.Function) bool
 		switch {
 		case nErr > 0 && nOK == 0:
 			k = respError
+			if rs := fn.Signature.Results(); rs.Len() > 0 && (boolResultIdx(fn.Signature) >= 0 || isErrorType(rs.At(rs.Len()-1).Type())) {
+				k = respConditional
+			}
 		case nOK > 0 && nErr == 0:
 			k = respSuccess
 		}
@@ -159,13 +169,13 @@ func ruleAnswerEndsHandler(c *Ctx, rule string, only func(fn *ssa.Function) bool
 				hasRW = true
 			}
 		}
-		if !hasRW || kindOf(fn, 0) == respError {
+		if !hasRW || kindOf(fn, 0) == respError || kindOf(fn, 0) == respConditional {
 			continue
 		}
 		// does it answer errors at all?
 		answers := false
 		allCalls(fn, func(ci ssa.CallInstruction) {
-			if g := staticCallee(ci); g != nil && kindOf(g, 0) == respError {
+			if g := staticCallee(ci); g != nil && (kindOf(g, 0) == respError || kindOf(g, 0) == respConditional) {
 				answers = true
 			}
 		})
@@ -178,6 +188,13 @@ func ruleAnswerEndsHandler(c *Ctx, rule string, only func(fn *ssa.Function) bool
 		obl := newOblSet(c, rule)
 		obl.expect(key, fn.Pos(), "no engine call and no second answer after an error answer")
 		pr := &PathRule{
+			MaxDepth: 3,
+			Inline: func(call ssa.CallInstruction) []*ssa.Function {
+				if g := staticCallee(call); g != nil && len(g.Blocks) > 0 && kindOf(g, 0) == respConditional {
+					return []*ssa.Function{g}
+				}
+				return nil
+			},
 			Step: func(pc *PathCtx, s uint64, ins ssa.Instruction) uint64 {
 				ci, ok := ins.(ssa.CallInstruction)
 				if !ok {
@@ -189,7 +206,7 @@ func ruleAnswerEndsHandler(c *Ctx, rule string, only func(fn *ssa.Function) bool
 				cc := ci.Common()
 				if g := staticCallee(ci); g != nil {
 					switch kindOf(g, 0) {
-					case respError:
+					case respError, respConditional: // (a conditional responder reaches here only when it could not be inlined)
 						return s | 1
 					case respSuccess:
 						if s&1 != 0 {
